@@ -105,7 +105,7 @@ pub fn run_case<G: AffineRepr>(run: u64, case: &Case, st: &mut Stats) {
     // the prover's RNG builder must not have touched the main transcript
     // (appends/challenges on other ids are not in p_ops by construction)
     let proof = R1CSProof::<G>::from_bytes(&pr.bytes).expect("honest proof decodes");
-    let bp_v = gens_with_history::<G>(&case.base.cap_v, 1);
+    let bp_v = gens_with_history::<G>(&case.base.cap_v, parties_for(&case.base.cap_v));
     let v = run_verifier::<G>(&case.base.st, &pr.commitments, &proof, &bp_v, true);
     st.steps += v.shared.borrow().steps as u64;
     let v_ops = main_ops(&v.log, v.tid);
